@@ -440,7 +440,7 @@ def gen(rng, tier):
             copies = rng.random() < 0.4
             data, lens = encode_layout(entries, chunk, copies)
             jobs.append(admit(rng, (kind, entries, req, sample_cut(rng, lens), chunk, copies)))
-        if ci % 16 == 5 and ci < (16 * 3 if quick else 16 * 24):     # (the model's snappy decoder is slow on chunks of this size: a handful per run)
+        if ci % 7 == 5 and ci < (7 * 3 if quick else 7 * 24):     # (stride 7: spread over the 16 workers)     # (the model's snappy decoder is slow on chunks of this size: a handful per run)
             jobs.insert(rng.randint(0, len(jobs)), huge_snappy_job(rng))
         cases.append(scripted_case(rng, jobs))
     # (c) the reference broker's own replies
